@@ -67,6 +67,15 @@ def make_cases(ctx):
                 rng.shuffle(arr)
                 cases.append({'arr': arr, 'L': L, 'initial': initial, 'final': final, 'offset': off,
                               'din': 'uint64', 'dout': 'uint64', 'dlen': 0})
+    # non-contiguous input and output views
+    for N in (0, 1, 2, 5, 9):
+        for initial, final in itertools.product([False, True], repeat=2):
+            L = N - 1 + int(initial) + int(final)
+            if L < 0:
+                continue
+            for (din, dout) in (('uint32', 'uint64'), ('int64', 'int64')):
+                cases.append({'arr': [rng.randint(0, 10 ** 6) for _ in range(N)], 'L': L, 'initial': initial, 'final': final,
+                              'offset': rng.choice([0, 5]), 'din': din, 'dout': dout, 'dlen': 0, 'strided': True})
     return cases
 
 
@@ -112,6 +121,13 @@ def impl_cases(payload):
     for c in payload['cases']:
         arr = list(c['arr']) if c['din'] == 'list' else np.array(c['arr'], dtype=c['din'])
         o = np.full(c['L'], SENTINEL, dtype=c['dout'])
+        if c.get('strided') and c['din'] != 'list':
+            # the same values through non-contiguous views (every other element of a wider buffer; a column of a 2-D array)
+            wide = np.full(2 * len(c['arr']) + 1, 123, dtype=c['din'])
+            wide[::2][:len(c['arr'])] = arr
+            arr = wide[::2][:len(c['arr'])]
+            obuf = np.full((c['L'], 3), SENTINEL, dtype=c['dout'])
+            o = obuf[:, 1]
         try:
             tot = f(arr, o, initial=c['initial'], final=c['final'], offset=c['offset'])
             if c.get('fl'):
